@@ -82,7 +82,14 @@ class _SktimeForecaster(BaseForecaster):
 
             # update X if given
             if X is not None:
-                self._X = X.combine_first(self._X)
+                # combine_first aligns by label and returns the sorted union of
+                # the columns when the two frames list them in different orders;
+                # keep the column order seen so far (the layout the model was
+                # trained on), columns not seen before come last
+                combined = X.combine_first(self._X)
+                seen = list(self._X.columns)
+                unseen = [c for c in combined.columns if c not in self._X.columns]
+                self._X = combined[seen + unseen]
 
     def _get_y_pred(self, y_in_sample, y_out_sample):
         """Combining in-sample and out-sample prediction
